@@ -1136,13 +1136,33 @@ class SymClient(Client):
             return None
         k = None
         a0 = e.args[0]
+        name = e.args[1].value
+        if isinstance(a0, ast.Name) and a0.id == 'self' and self.cls is not None and self.f.kind == 'method' \
+                and self.f.params and self.f.params[0] == 'self':
+            # the object at hand: attributes of its class (and bases), or assigned through ``self`` in a method of them.  The
+            # object may be of a subclass: only a positive answer is certain, a negative one when no subclass adds the name.
+            fam = list(self.cls.mro())
+            subs = [x for x in self.repo.subclasses(self.cls) if x.key != self.cls.key]
+            def has(kls):
+                if name in kls.attrs or name in kls.methods or name in kls.setters:
+                    return True
+                for fn_ in kls.methods.values():
+                    for n_ in ast.walk(fn_.node):
+                        if isinstance(n_, ast.Attribute) and n_.attr == name and isinstance(n_.ctx, ast.Store) \
+                                and isinstance(n_.value, ast.Name) and fn_.params and n_.value.id == fn_.params[0]:
+                            return True
+                return False
+            if any(has(b) for b in fam):
+                return True
+            if not any(has(b) for b in subs) and all(x in ('object',) for x in self.cls.all_ext_bases()):
+                return False
+            return None
         if isinstance(a0, ast.Name):
             k = self._find_class(a0.id)
         elif isinstance(a0, ast.Attribute) and isinstance(a0.value, ast.Name) and a0.value.id in self.repo.modules:
             k = self.repo.modules[a0.value.id].classes.get(a0.attr)
         if k is None:
             return None
-        name = e.args[1].value
         for b in k.mro():
             if name in b.attrs or name in b.methods or name in b.setters:
                 return True
